@@ -40,9 +40,12 @@ def run(chk, tier, seed):
             lines.append("s%d ty_schema %d %d" % (n, ri, v))
             meta["s%d" % n] = {"kind": "schema", "root": ri, "version": v, "val": 0, "n": n}
         for vi in range(min(len(r["vals"]), 3 if tier == "quick" else 8)):
-            n += 1
-            lines.append("b%d ty_save %d bare %d %d" % (n, ri, cur, vi))
-            meta["b%d" % n] = {"kind": "bytes", "root": ri, "version": cur, "val": vi, "n": n}
+            # at the current version, and for evolved types also at every older version they can still be written at
+            # (a Removed field present at that version makes the write panic by design: those are skipped below)
+            for v in ([cur] if "hist" not in r["tags"] else [x for x in vers if x <= cur]):
+                n += 1
+                lines.append("b%d ty_save %d bare %d %d" % (n, ri, v, vi))
+                meta["b%d" % n] = {"kind": "bytes", "root": ri, "version": v, "val": vi, "n": n}
     obs = C.run_harness(binary, lines, timeout=900)
     schema_at = {}
     for cid, m in meta.items():
